@@ -64,6 +64,30 @@ Definition cfg_sn_ok (c : case) : bool :=
 Definition cfg_ok (c : case) : bool :=
   cfg_sn_ok c && (0 <=? c_i c)%Z && (c_i c <? c_n c)%Z.
 
+(** Accepted exactly when owned, and then the internal address is k*s + j
+    (specification formulas only). *)
+Definition conv_ok (s n i off x : N) (conv : outcome) : bool :=
+  if ownedb s n i off x then outcome_eqb conv (Ok (internal_of s n off x))
+  else outcome_eqb conv Panic.
+
+(** The mapper with the same size and the same number of elements: outside the
+    limitation it names the module for other addresses; at or above the offset
+    it names element i exactly when the converter of element i accepted, it
+    names the owning element (when count = 1 or offset is a multiple of
+    size*count), and in general the owning element rotated by offset/size (when
+    the offset is a multiple of the size). *)
+Definition mapper_ok (s n i off : N) (lim : bool) (lo hi x : N) (conv : outcome) (fnd : mres) : bool :=
+  if lim && ((hi <=? x) || (x <? lo)) then mres_eqb fnd MOther
+  else if off <=? x then
+    (if (n =? 1) || (off mod (s * n) =? 0)
+     then Bool.eqb (mres_eqb fnd (MIdx i)) (is_ok conv) &&
+          mres_eqb fnd (MIdx (element_of s n off x))
+     else true) &&
+    (if off mod s =? 0
+     then mres_eqb fnd (MIdx ((element_of s n off x + off / s) mod n))
+     else true)
+  else true.
+
 (** The property on one probed address, from the observed outputs and the
     specification formulas only. *)
 Definition row_ok (c : case) (r : row) : bool :=
@@ -72,25 +96,13 @@ Definition row_ok (c : case) (r : row) : bool :=
   outcome_eqb (r_conv r) (r_addr r) &&
   outcome_eqb (r_ident r) (Ok x) &&
   (if cfg_ok c then
-    (* accepted exactly when owned, and then the internal address is k*s + j *)
-    (if ownedb s n i off x then outcome_eqb (r_conv r) (Ok (internal_of s n off x))
-     else outcome_eqb (r_conv r) Panic) &&
-    (* the mapper (same size, same number of elements) *)
-    (if (c_ms c =? s) && (c_mlen c =? n) then
-       if c_lim c && ((c_hi c <=? x) || (x <? c_lo c)) then mres_eqb (r_find r) MOther
-       else if off <=? x then
-         (if (n =? 1) || (off mod (s * n) =? 0)
-          then Bool.eqb (mres_eqb (r_find r) (MIdx i)) (is_ok (r_conv r)) &&
-               mres_eqb (r_find r) (MIdx (element_of s n off x))
-          else true) &&
-         (if off mod s =? 0
-          then mres_eqb (r_find r) (MIdx ((element_of s n off x + off / s) mod n))
-          else true)
-       else true
-     else true)
-  else if (c_s c =? 0) || (c_n c =? 0)%Z then outcome_eqb (r_conv r) Panic
-  else if cfg_sn_ok c then outcome_eqb (r_conv r) Panic   (* index outside [0,n): owns nothing *)
-  else true).
+     conv_ok s n i off x (r_conv r) &&
+     (if (c_ms c =? s) && (c_mlen c =? n)
+      then mapper_ok s n i off (c_lim c) (c_lo c) (c_hi c) x (r_conv r) (r_find r)
+      else true)
+   else if (c_s c =? 0) || (c_n c =? 0)%Z then outcome_eqb (r_conv r) Panic
+   else if cfg_sn_ok c then outcome_eqb (r_conv r) Panic   (* index outside [0,n): owns nothing *)
+   else true).
 
 (** The property on two probed addresses: order is preserved, and inside one
     stripe distances are preserved. *)
